@@ -2,6 +2,7 @@ package accesslist
 
 import (
 	"context"
+	"net"
 
 	"github.com/prometheus/client_golang/prometheus"
 	"github.com/semihalev/sdns/config"
@@ -70,5 +71,10 @@ func (a *List) ServeDNS(ctx context.Context, ch *middleware.Chain) {
 
 	ch.Next(ctx)
 }
+
+// (*List).AdmitsSource reports whether ip is inside the configured list;
+// it is the same test ServeDNS applies, offered to the server for the
+// replies it writes before the pipeline runs.
+func (a *List) AdmitsSource(ip net.IP) bool { return a.allowed.ContainsIP(ip) }
 
 const name = "accesslist"
